@@ -35,13 +35,18 @@ package samlsp
 //@ -- already holds - repeated attributes lose nothing - and the session index is appended likewise
 //@ -- (prev: what the attribute map held under k before the update - whether the map is the claims' field or a local that
 //@ -- becomes it)
-//@ assert@store[C16] Attributes[] #each (k string, v []string, prev []string) uses attr saml.Attribute appends_value_under_claim_name:
-//@    (attr.FriendlyName != "" ==> k == attr.FriendlyName) && (attr.FriendlyName == "" ==> k == attr.Name) &&
-//@    len(v) == len(prev)+1 &&
-//@    exists(0, len(attr.Values), func(j int) bool { return v[len(v)-1] == attr.Values[j].Value }) &&
-//@    forall(0, len(prev), func(j int) bool { return v[j] == prev[j] })
-//@ assert@store[C16] Attributes[] #2 (k string, v []string, prev []string) uses authnStatement saml.AuthnStatement appends_session_index:
-//@    k == claimNameSessionIndex && len(v) == len(prev)+1 && v[len(v)-1] == authnStatement.SessionIndex
+//@ -- (three statements, none of which cares whether values are stored one by one or collected first and stored once)
+//@ assert@store[C16] Attributes[] #each (k string, v []string, prev []string) keeps_what_the_claim_held:
+//@    len(v) >= len(prev) && forall(0, len(prev), func(j int) bool { return v[j] == prev[j] })
+//@ assert@store[C16] Attributes[] #each (k string, v []string, prev []string) uses attr=attr? saml.Attribute stored_under_the_claim_name:
+//@    (attr.FriendlyName != "" ==> k == attr.FriendlyName) && (attr.FriendlyName == "" ==> k == attr.Name)
+//@ assert@store[C16] Attributes[] #each (k string, v []string, prev []string) uses inAttr=reached:attr bool session_index_under_its_name:
+//@    !inAttr ==> k == claimNameSessionIndex
+//@ ghost func allocatedHereStrings(s []string) bool
+//@ assert@call[C16] append #each (dst []string, src []string) uses attr=attr? saml.Attribute appends_a_value_of_the_attribute:
+//@    allocatedHereStrings(src) && len(src) == 1 ==> exists(0, len(attr.Values), func(j int) bool { return src[0] == attr.Values[j].Value })
+//@ assert@call[C16] append #each (dst []string, src []string) uses st=authnStatement? saml.AuthnStatement appends_the_session_index:
+//@    allocatedHereStrings(src) && len(src) == 1 ==> src[0] == st.SessionIndex
 
 //@ -- a session token is signed with the codec's own method and key, over exactly the given claims
 //@ contract (JWTSessionCodec).Encode
